@@ -16,7 +16,7 @@ func init() { register("C11", checkC11) }
 
 func checkC11(r *Run) propMeta {
 	meta := propMeta{Level: "other",
-		Explanation: "Decides, from the struct definitions themselves, the structural clause of copy/traversal correctness: (Copy) every model type with a copy() method has a case in cypher.Copy and vice versa, every Copy(x) call site with a concrete static type has a case (otherwise Copy panics), every copy() assigns every field of its type, and every reference-typed field through a fresh copy — never the original reference; (walkers) for the effective cursor of every node type, structural mode places every child field exactly once, semantic ⊆ structural, both constructors start with the nil-node error guard; same child-coverage rule for the PostgreSQL AST walker; (Generic) on every CFG path between two visitor callbacks or a callback and the next cursor construction there is an Error() gate that returns and a Done() gate that leaves, every pop is preceded by Exit of that node, Enter only on first visit. `any`-typed payload fields (Literal.Value, Parameter.Value) are recorded as opaque and shared by design. NOT decided: behaviour of reflect-based isNilNode on exotic kinds; user visitors.",
+		Explanation: "Decides, from the struct definitions themselves, the structural clause of copy/traversal correctness: (Copy) every model type with a copy() method has a case in cypher.Copy and vice versa, every Copy(x) call site with a concrete static type has a case (otherwise Copy panics), every copy() assigns every field of its type, and every reference-typed field through a fresh copy — never the original reference; the slice/map copy helpers return freshly allocated storage (or nil) on every path, never their argument; (walkers) for the effective cursor of every node type, structural mode places every child field exactly once, semantic ⊆ structural, both constructors start with the nil-node error guard; same child-coverage rule for the PostgreSQL AST walker; (Generic) on every CFG path between two visitor callbacks or a callback and the next cursor construction there is an Error() gate that returns and a Done() gate that leaves, every pop is preceded by Exit of that node and by a read of WasConsumed() after the last callback (so a consume request made in Exit cannot leak to the parent), Enter only on first visit. `any`-typed payload fields (Literal.Value, Parameter.Value) are recorded as opaque and shared by design. NOT decided: behaviour of reflect-based isNilNode on exotic kinds; user visitors.",
 		Assumptions: []string{"field classes are derived from declared types: child = (pointer/slice/map of) model struct, Expression/SyntaxNode, MapLiteral, graph.Kinds; scalar = basic underlying type; payload = `any`"},
 		TrustedBase: []string{"go/types", "go/cfg", "this analyser"}}
 	if err := r.Load("./cypher/...", "./graph/..."); err != nil {
@@ -151,6 +151,7 @@ func checkCopy(r *Run) {
 	for n, fd := range copyMethods {
 		checkCopyMethod(r, cp, n, fd)
 	}
+	checkCopyHelpers(r, cp)
 	r.Floor("C11-copy-case", 50)
 	r.Floor("C11-copy-field", 100)
 }
@@ -793,3 +794,159 @@ func checkSQLWalker(r *Run) {
 }
 
 var _ = fmt.Sprintf
+
+// checkCopyHelpers: the slice/map copy helpers that copy() methods delegate to must hand back fresh storage on every
+// path.  Returning the argument itself — even only for an empty slice — shares the backing array: an empty slice with
+// spare capacity (a list drained with [:0], or made with make(T, 0, n)) then has original and copy append into the
+// same slot, and a change to one shows up in the other.
+func checkCopyHelpers(r *Run, cp *packages.Package) {
+	info := cp.TypesInfo
+	n := 0
+	for _, f := range cp.Syntax {
+		for _, d := range f.Decls {
+			fd, ok := d.(*ast.FuncDecl)
+			if !ok || fd.Body == nil || fd.Recv != nil || fd.Type.Params == nil || fd.Type.Results == nil || len(fd.Type.Results.List) != 1 {
+				continue
+			}
+			if !strings.HasPrefix(strings.ToLower(fd.Name.Name), "copy") || fd.Name.Name == "Copy" {
+				continue
+			}
+			// parameters of slice or map type
+			params := map[types.Object]bool{}
+			for _, pl := range fd.Type.Params.List {
+				for _, nm := range pl.Names {
+					obj := info.Defs[nm]
+					if obj == nil {
+						continue
+					}
+					switch u := obj.Type().Underlying().(type) {
+					case *types.Slice, *types.Map:
+						params[obj] = true
+					case *types.TypeParam:
+						_ = u
+					default:
+						if tp, ok := obj.Type().(*types.TypeParam); ok {
+							if core := coreTypeOf(tp); core != nil {
+								switch core.(type) {
+								case *types.Slice, *types.Map:
+									params[obj] = true
+								}
+							}
+						}
+					}
+					if tp, ok := obj.Type().(*types.TypeParam); ok {
+						if core := coreTypeOf(tp); core != nil {
+							switch core.(type) {
+							case *types.Slice, *types.Map:
+								params[obj] = true
+							}
+						}
+					}
+				}
+			}
+			if len(params) == 0 {
+				continue
+			}
+			n++
+			construct := "cypher." + fd.Name.Name
+			// may `e` denote (storage of) a parameter?
+			var aliases func(e ast.Expr, depth int) bool
+			aliases = func(e ast.Expr, depth int) bool {
+				if depth > 6 {
+					return true
+				}
+				switch x := ast.Unparen(e).(type) {
+				case *ast.Ident:
+					obj := info.Uses[x]
+					if params[obj] {
+						return true
+					}
+					if _, isNil := obj.(*types.Nil); isNil || obj == nil {
+						return false
+					}
+					// every assignment to the local
+					al := false
+					ast.Inspect(fd.Body, func(m ast.Node) bool {
+						switch s := m.(type) {
+						case *ast.AssignStmt:
+							for i, l := range s.Lhs {
+								if id, ok := l.(*ast.Ident); ok && (info.Defs[id] == obj || info.Uses[id] == obj) && len(s.Lhs) == len(s.Rhs) {
+									if aliases(s.Rhs[i], depth+1) {
+										al = true
+									}
+								}
+							}
+						case *ast.ValueSpec:
+							for i, nm := range s.Names {
+								if info.Defs[nm] == obj && i < len(s.Values) && aliases(s.Values[i], depth+1) {
+									al = true
+								}
+							}
+						}
+						return true
+					})
+					return al
+				case *ast.SliceExpr:
+					return aliases(x.X, depth+1)
+				case *ast.CallExpr:
+					if id, ok := ast.Unparen(x.Fun).(*ast.Ident); ok {
+						if _, isBuiltin := info.Uses[id].(*types.Builtin); isBuiltin {
+							switch id.Name {
+							case "make", "new":
+								return false
+							case "append":
+								return len(x.Args) > 0 && aliases(x.Args[0], depth+1)
+							}
+						}
+					}
+					if tv, ok := info.Types[x.Fun]; ok && tv.IsType() && len(x.Args) == 1 {
+						return aliases(x.Args[0], depth+1) // conversion
+					}
+					return false
+				case *ast.CompositeLit:
+					return false
+				}
+				return false
+			}
+			bad := token.NoPos
+			ast.Inspect(fd.Body, func(m ast.Node) bool {
+				if _, isLit := m.(*ast.FuncLit); isLit {
+					return false
+				}
+				if ret, ok := m.(*ast.ReturnStmt); ok && len(ret.Results) == 1 && bad == token.NoPos {
+					if aliases(ret.Results[0], 0) {
+						bad = ret.Pos()
+					}
+				}
+				return true
+			})
+			if bad == token.NoPos {
+				r.Pass("C11-copy-helper-fresh", construct, fd.Pos(), "every return hands back storage allocated in the helper (or nil)")
+			} else {
+				r.Fail("C11-copy-helper-fresh", construct, bad, "%s returns its argument (or a slice of it) on some path: the copy shares the backing array with the original, so appending to an empty-but-allocated child list of one writes into the other", fd.Name.Name)
+			}
+		}
+	}
+	if n == 0 {
+		r.Undecide("C11-copy-helper-fresh: no slice/map copy helper found in the cypher model package (copySlice confirmed by reading)")
+	}
+}
+
+func coreTypeOf(tp *types.TypeParam) types.Type {
+	iface, ok := tp.Constraint().Underlying().(*types.Interface)
+	if !ok {
+		return nil
+	}
+	var core types.Type
+	for i := 0; i < iface.NumEmbeddeds(); i++ {
+		switch e := iface.EmbeddedType(i).(type) {
+		case *types.Union:
+			for j := 0; j < e.Len(); j++ {
+				core = e.Term(j).Type().Underlying()
+			}
+		default:
+			core = e.Underlying()
+		}
+	}
+	return core
+}
